@@ -15,7 +15,7 @@
  "name": "unix_open",
  "props": ["C13"],
  "level": "U",
- "tier": "wip",
+ "tier": "quick",
  "harness": "h_unix_open",
  "enforce": ["unix_open"],
  "replace": ["unix_open_channel"],
@@ -34,7 +34,7 @@
  "name": "unixfd_open",
  "props": ["C13"],
  "level": "U",
- "tier": "wip",
+ "tier": "quick",
  "harness": "h_unixfd_open",
  "enforce": ["unixfd_open"],
  "replace": ["unix_open_channel"],
